@@ -10,6 +10,7 @@ if [ -f "$d/demo.py" ]; then
   (cd "$w/r" && PYTHONPATH="$w/r" PYTHONDONTWRITEBYTECODE=1 /venv/bin/python "$d/demo.py" >/dev/null 2>&1); echo "demo with patch: exit $?"
   (cd /repo && PYTHONPATH=/repo PYTHONDONTWRITEBYTECODE=1 /venv/bin/python "$d/demo.py" >/dev/null 2>&1); echo "demo on HEAD:    exit $?"
 fi
+cp /verif/evidence/$prop.json "$w/ev.json" 2>/dev/null
 cd /verif && FSIC_REPO="$w/r" ./check "$prop" "$tier" 2>&1 | tail -4
-rc=$?
+cp "$w/ev.json" /verif/evidence/$prop.json 2>/dev/null
 git -C /repo worktree remove --force "$w/r"; rm -rf "$w"
